@@ -23,8 +23,8 @@ if [ "${1:-}" = "--full" ]; then
   for p in seeded/benign/*.diff; do tools/benign_eval.sh "$PWD/$p" 2>&1 | grep ALARM && fail=1; done
   tools/seeded_all.py >/tmp/selfcheck_seeded.log 2>&1
   n=$(grep -c MISSED seeded/RESULTS.md)
-  echo "seeded changes not reported by their own check: $n (expected 1: C08-10)"
-  [ "$n" = 1 ] || fail=1
+  echo "seeded changes not reported by their own check: $n (expected 0)"
+  [ "$n" = 0 ] || fail=1
 fi
 [ $fail = 0 ] && echo "SELFCHECK OK" || echo "SELFCHECK FAILED"
 exit $fail
